@@ -3,6 +3,8 @@ package main
 // Evaluation of contract expressions into SMT terms over a symbolic state.
 
 import (
+	"os"
+	"math/big"
 	"fmt"
 	"go/token"
 	"go/types"
@@ -26,10 +28,11 @@ type SpecEnv struct {
 	noUnfold bool
 	pol   int      // +1: formula in goal position, -1: hypothesis position, 0: unknown (no typing facts)
 	facts *[]Term  // typing facts of references read while evaluating (heap type safety)
+	fn    *ssa.Function // the function whose contract is being evaluated (for typearg())
 }
 
 func (e *SpecEnv) with(names map[string]SVal) *SpecEnv {
-	n := &SpecEnv{u: e.u, st: e.st, old: e.old, names: map[string]SVal{}, depth: e.depth + 1, allowUndefined: e.allowUndefined, noUnfold: e.noUnfold, pol: e.pol, facts: e.facts}
+	n := &SpecEnv{u: e.u, st: e.st, old: e.old, names: map[string]SVal{}, depth: e.depth + 1, allowUndefined: e.allowUndefined, noUnfold: e.noUnfold, pol: e.pol, facts: e.facts, fn: e.fn}
 	for k, v := range e.names {
 		n.names[k] = v
 	}
@@ -106,7 +109,14 @@ func (e *SpecEnv) noteRefs(v Value, t types.Type) {
 		switch lf.Kind {
 		case "ptr", "ref", "arr":
 			*e.facts = append(*e.facts, And(Le(IntLit(0), terms[i]), Lt(terms[i], e.st.alloc)))
-		case "len", "cap", "off":
+		case "len", "cap":
+			// heap type safety incl. A-slice-size (value.go)
+			if os.Getenv("GOVC_NOLENUB") != "" {
+				*e.facts = append(*e.facts, Le(IntLit(0), terms[i]))
+			} else {
+				*e.facts = append(*e.facts, And(Le(IntLit(0), terms[i]), Le(terms[i], BigLit(maxElems(lf.T)))))
+			}
+		case "off":
 			*e.facts = append(*e.facts, Le(IntLit(0), terms[i]))
 		}
 	}
@@ -436,6 +446,11 @@ func (e *SpecEnv) binary(n SBinary) (SVal, error) {
 		if err != nil {
 			return SVal{}, err
 		}
+		if n.Op == "==>" && a.S == TFalse.S {
+			// statically false antecedent (typearg() of another instantiation): the consequent need not even be
+			// well typed for this instantiation
+			return SVal{V: Scalar{TTrue}}, nil
+		}
 		b, err := re.evalBool(n.Y)
 		if err != nil {
 			if n.Op == "==>" && e.allowUndefined && strings.HasPrefix(err.Error(), "unknown name") {
@@ -565,7 +580,7 @@ func (e *SpecEnv) callSpec(n SCall) (SVal, error) {
 		if len(n.Args) != 1 {
 			return SVal{}, fmt.Errorf("old takes one argument")
 		}
-		o := &SpecEnv{u: u, st: e.old, old: e.old, names: e.names, depth: e.depth, pol: e.pol, facts: e.facts, allowUndefined: e.allowUndefined, noUnfold: e.noUnfold}
+		o := &SpecEnv{u: u, st: e.old, old: e.old, names: e.names, depth: e.depth, pol: e.pol, facts: e.facts, allowUndefined: e.allowUndefined, noUnfold: e.noUnfold, fn: e.fn}
 		return o.eval(n.Args[0])
 	case "len", "cap":
 		v, err := e.eval(n.Args[0])
@@ -791,7 +806,19 @@ func (e *SpecEnv) callSpec(n SCall) (SVal, error) {
 		if !ok {
 			return SVal{}, fmt.Errorf("mapdom of non-map")
 		}
-		return SVal{V: Scalar{u.mapDom(e.st, mt, v.V.(Scalar).T)}}, nil
+		dom := u.mapDom(e.st, mt, v.V.(Scalar).T)
+		// heap type safety for maps with integer-coded keys: the domain of a Go map is a finite set whose size is
+		// the map's length (used with the counting functions of externals.vspec)
+		if uf, ok := u.eng.specs.UFns["finiteSet"]; ok && e.facts != nil && e.pol != 0 && mapKeySort(mt) == SInt {
+			if uc, ok2 := u.eng.specs.UFns["setCard"]; ok2 {
+				u.c.DeclFun(uf.Name, uf.Args, uf.Ret)
+				u.c.DeclFun(uc.Name, uc.Args, uc.Ret)
+				lc := u.m.comp(e.st, u.mapLenName(mt), SArrI)
+				ln := Select(lc, v.V.(Scalar).T)
+				*e.facts = append(*e.facts, And(app(SBool, "finiteSet", dom), Eq(app(SInt, "setCard", dom), ln), Le(ln, BigLit(new(big.Int).Sub(pow2(63), big.NewInt(1))))))
+			}
+		}
+		return SVal{V: Scalar{dom}}, nil
 	case "mapvals": // mapvals(m): the value array of a map with scalar values
 		v, err := e.eval(n.Args[0])
 		if err != nil {
@@ -932,6 +959,59 @@ func (e *SpecEnv) callSpec(n SCall) (SVal, error) {
 			return SVal{V: Scalar{t}}, nil
 		}
 		return SVal{V: Scalar{u.ghostInit(tn.V)}}, nil
+	case "typearg": // typearg(i, "pkg.T"): the i-th type argument of this instantiation of a generic function is pkg.T
+		il, ok1 := n.Args[0].(SIntLit)
+		tn, ok2 := n.Args[1].(SStrLit)
+		if len(n.Args) != 2 || !ok1 || !ok2 {
+			return SVal{}, fmt.Errorf("typearg(i, \"pkg.T\") expects an integer and a string literal")
+		}
+		if e.fn == nil {
+			return SVal{}, fmt.Errorf("typearg outside a function contract")
+		}
+		ta := e.fn.TypeArgs()
+		idx := int(il.V.Int64())
+		if idx < 0 || idx >= len(ta) {
+			return SVal{V: Scalar{TFalse}}, nil
+		}
+		if typeName(ta[idx]) == tn.V {
+			return SVal{V: Scalar{TTrue}}, nil
+		}
+		return SVal{V: Scalar{TFalse}}, nil
+	case "store": // store(a, i, v): SMT array update (for axioms and postconditions over sets/maps as values)
+		if len(n.Args) != 3 {
+			return SVal{}, fmt.Errorf("store(a, i, v) expects 3 arguments")
+		}
+		a, err := e.evalTerm(n.Args[0])
+		if err != nil {
+			return SVal{}, err
+		}
+		i, err := e.evalTerm(n.Args[1])
+		if err != nil {
+			return SVal{}, err
+		}
+		v, err := e.evalTerm(n.Args[2])
+		if err != nil {
+			return SVal{}, err
+		}
+		if a.Sort != ArrSort(i.Sort, v.Sort) {
+			return SVal{}, fmt.Errorf("store: array of sort %s updated at %s with %s", a.Sort, i.Sort, v.Sort)
+		}
+		return SVal{V: Scalar{Store(a, i, v)}}, nil
+	case "emptyintset": // the empty set of integer-coded keys
+		srt := ArrSort(SInt, SBool)
+		return SVal{V: Scalar{Term{fmt.Sprintf("((as const %s) false)", srt), srt}}}, nil
+	case "visitedset": // visitedset(): the set of keys already yielded by the map iteration of the enclosing loop
+		var key string
+		for i := len(u.iterOrder) - 1; i >= 0; i-- {
+			if _, ok := e.st.ghost[u.iterOrder[i]]; ok {
+				key = u.iterOrder[i]
+				break
+			}
+		}
+		if key == "" {
+			return SVal{}, fmt.Errorf("no active map iteration for visitedset()")
+		}
+		return SVal{V: Scalar{e.st.ghost[key]}}, nil
 	case "visited": // visited(k): key already yielded by the (single) map iteration of the enclosing loop
 		kv, err := e.evalTerm(n.Args[0])
 		if err != nil {
@@ -991,7 +1071,7 @@ func (e *SpecEnv) callSpec(n SCall) (SVal, error) {
 			for i, p := range rf.Params {
 				names[p] = SVal{V: Scalar{args[i]}}
 			}
-			inner := &SpecEnv{u: u, st: e.st, old: e.old, names: names, noUnfold: true}
+			inner := &SpecEnv{u: u, st: e.st, old: e.old, names: names, noUnfold: true, fn: e.fn}
 			if body, err := inner.evalTerm(rf.Body); err == nil {
 				u.c.Assume(Eq(appT, body))
 			}
@@ -1124,6 +1204,9 @@ func (u *Unit) specEnvForUnit(st, old *State, results []Value) *SpecEnv {
 }
 
 func (u *Unit) bindParams(env *SpecEnv, sp *FuncSpec, fn *ssa.Function, sig *types.Signature, args []Value, results []Value) {
+	if fn != nil {
+		env.fn = fn
+	}
 	// parameter names
 	var pnames []string
 	var ptypes []types.Type
@@ -1198,7 +1281,7 @@ func (u *Unit) declareRecFn(rf *RecFn) error {
 		params = append(params, fmt.Sprintf("(%s %s)", pn, rf.Sorts[i]))
 		names[p] = SVal{V: Scalar{Term{pn, rf.Sorts[i]}}}
 	}
-	env := &SpecEnv{u: u, st: u.entrySt, old: u.entrySt, names: names}
+	env := &SpecEnv{u: u, st: u.entrySt, old: u.entrySt, names: names, fn: u.fn}
 	body, err := env.evalTerm(rf.Body)
 	if err != nil {
 		return fmt.Errorf("recfn %s: %v", rf.Name, err)
